@@ -47,7 +47,7 @@ func init() {
 		switch cs.Root {
 		case "nil":
 		case "sentinel":
-			root, rootText = &transport.ErrInjected{What: "root"}, "injected fault: root"
+			root, rootText = &transport.ErrInjected{What: "root", Inner: io.ErrClosedPipe}, "injected fault: root"
 		case "new":
 			root, rootText = oe.New("root-new"), "root-new"
 		case "errorf":
@@ -414,7 +414,7 @@ func init() {
 				s.Seg = transport.SegmenterByName(seg, int64(c.Seed)+11)
 				s.Write(f.wire)
 				s.CloseWrite()
-				sent := &transport.ErrInjected{What: fmt.Sprintf("read call %d", k)}
+				sent := &transport.ErrInjected{What: fmt.Sprintf("read call %d", k), Inner: io.ErrNoProgress}
 				s.FailRead(k, sent)
 				got, err, bad := f.read(s)
 				nFaults++
@@ -444,7 +444,7 @@ func init() {
 		}
 		for k := 0; k < wcalls; k += step {
 			s := transport.NewStream()
-			sent := &transport.ErrInjected{What: fmt.Sprintf("write call %d", k)}
+			sent := &transport.ErrInjected{What: fmt.Sprintf("write call %d", k), Inner: io.ErrShortWrite}
 			s.FailWrite(k, sent)
 			_, err := f.write(s)
 			nFaults++
